@@ -28,6 +28,15 @@ AllLive == [i \in 1..n |-> TRUE]
 Cur == [st |-> st, alive |-> alive, mode |-> mode, startCb |-> startCb, termCb |-> termCb, firstStart |-> firstStart, depst |-> depst,
         res |-> "ok", why |-> "", checkwhy |-> FALSE, started |-> FALSE, failed |-> FALSE]
 
+ApplyFault(i, reason, s) ==
+     IF s.st = "running" /\ i \in 1..n /\ s.alive[i] THEN
+        LET a1 == [s.alive EXCEPT ![i] = FALSE]
+            trigger == s.mode = "perm" \/ (s.mode = "trans" /\ Abnormal(reason))
+        IN IF trigger THEN [s EXCEPT !.alive = AllDead, !.st = "loaded", !.termCb = @ + 1, !.why = reason, !.checkwhy = TRUE]
+           ELSE IF a1 = AllDead THEN [s EXCEPT !.alive = AllDead, !.st = "loaded", !.termCb = @ + 1]
+           ELSE [s EXCEPT !.alive = a1]
+     ELSE s
+
 \* the reference: returns the next state record plus expectations for this line
 Apply(e, s) ==
   IF e.op = "load" THEN
@@ -44,14 +53,12 @@ Apply(e, s) ==
             THEN [s EXCEPT !.depst = d, !.firstStart = FALSE, !.res = "err:R:initfail", !.failed = TRUE]
             ELSE [s EXCEPT !.depst = d, !.firstStart = FALSE, !.st = "running", !.alive = AllLive, !.startCb = @ + 1, !.started = TRUE,
                            !.mode = IF e.opmode = "" THEN defmode ELSE e.opmode]
-  ELSE IF e.op = "fault" THEN
-     IF s.st = "running" /\ e.i \in 1..n /\ s.alive[e.i] THEN
-        LET a1 == [s.alive EXCEPT ![e.i] = FALSE]
-            trigger == s.mode = "perm" \/ (s.mode = "trans" /\ Abnormal(e.reason))
-        IN IF trigger THEN [s EXCEPT !.alive = AllDead, !.st = "loaded", !.termCb = @ + 1, !.why = e.reason, !.checkwhy = TRUE]
-           ELSE IF a1 = AllDead THEN [s EXCEPT !.alive = AllDead, !.st = "loaded", !.termCb = @ + 1]
-           ELSE [s EXCEPT !.alive = a1]
-     ELSE s
+  ELSE IF e.op = "fault" THEN ApplyFault(e.i, e.reason, s)
+  ELSE IF e.op = "fault2" THEN
+     \* member j sits in a handler while member i dies; j then leaves its handler with its own reason: the outcome is that of the two
+     \* faults one after the other - in particular the reason of the FIRST one that makes the application stop is the causing reason
+     LET s1 == ApplyFault(e.i, e.reason, s) IN
+     IF s1.st = "running" THEN ApplyFault(e.j, e.reason2, s1) ELSE s1
   ELSE IF e.op \in {"stop", "stopforce"} THEN
      IF s.st = "unloaded" THEN [s EXCEPT !.res = "unknown"]
      ELSE IF s.st = "loaded" THEN s
